@@ -497,9 +497,10 @@ theorem full_driver_input_is_instance {K : Type} [Scalar K] (alg : Ls.Alg) (halg
 
 /-- … and the configurations the driver creates objects with (`new`: `min_x()` / nothing stored, or a stored list)
     are admissible (`CfgOk`, `SCfgOk`) for that input exactly when the list resolves the defect — the condition the
-    driver evaluates on the numeric model for every state (`outsideF` / `outsideS`; otherwise it prints `after-throw`
-    and the case is outside the quantifier of the `…_answer_denotes` theorems, but inside
-    `full_history_free_across_inputs`). -/
+    driver evaluates on the numeric model for every state (`outsideF` / `outsideS`; otherwise it prints `after-throw`:
+    the case is outside the quantifier of `full_answer_denotes_resolving` and `svd_answer_denotes` (`CfgOk` / `SCfgOk`,
+    `ValidF` / `ValidS`, `op.Ok`), but inside `full_history_free_across_inputs` and — for chol / gso, since round 9 —
+    inside `full_answer_denotes`, which covers every history and every op and excludes only `Pending` states). -/
 theorem full_driver_cfg_ok {K : Type} [Scalar K] (k : Kind) (p : Ls.Problem K) (l : Option (List Nat)) :
     let inp := Full.inputOf (algOf k) p
     (inp.nullity = 0 ∨ inp.resolves (Full.eff inp (Full.init l.isNone l)) = true) →
